@@ -359,6 +359,10 @@ func (x *Exec) havocReachable(st *State, v Value) {
 			}
 			x.setComp(st, fam, root, j, Store(c, v.L[0], x.c.Fresh("hv", s)))
 		}
+		if typeName(t.Elem()) == "container/list.List" {
+			// the sequence of a list goes with the list object
+			x.listForget(st, v.L[0], nil)
+		}
 	case *types.Map:
 		mf := x.mapFam(v.T)
 		dom, dk := x.mapComp(st, mf, "dom", 0)
